@@ -110,7 +110,7 @@ NOT_YET = {}
 
 # additions made while the checks were strengthened against seeded changes (DESIGN.md section 7, seeded/README.md)
 EXTRA = {
- "C07": " Third session: shapes with quotes in media types / dispositions, empty and two-@ address fields; HEADER.FIELDS labels with string names; commands that find nothing (fixed-shape response codes are validated); a history part: ENVELOPE / BODYSTRUCTURE describe the message the model expects at that UID after messages go and come.",
+ "C07": " Third session: shapes with quotes in media types / dispositions, empty and two-@ address fields; HEADER.FIELDS labels with string names; commands that find nothing (fixed-shape response codes are validated); a history part: ENVELOPE / BODYSTRUCTURE describe the message the model expects at that UID after messages go and come. Fourth session: a plan in which the leaf a/b is subscribed and its UIDVALIDITY seen (DELETE keeps a subscribed mailbox as a place holder; created again it must come back with a larger UIDVALIDITY). Fourth session: a narrow plan deep enough for expunge, pack, restart, look with nothing arriving in between. Fourth session: a plan in which flags are taken off between two restarts (the mailbox is loaded from the database, changed, loaded again). Fourth session: names also go through LIST-EXTENDED selection / return options and LIST ... RETURN (STATUS ..) (names decoded from LIST and STATUS lines); shapes with an empty multipart boundary, no header fields at all, an encoded word decoding to CR LF in a display name.",
  "C01": " A second BFS starts from a state where a quiet session holds a pending EXPUNGE; a schedule part runs eight two-session scenarios (re-SELECT, EXPUNGE/MOVE against "
         "FETCH incl. a slow reader) under every schedule with <=2 (thorough 2-3) deviations and reports the stream rules. Third session: two more scenarios have a slow reader at a flush point that does not queue on the mailbox (CAPABILITY, LSUB) while another session expunges.",
  "C02": " A second, deeper BFS runs over a six-event core alphabet (messages go, come, pack, restart); deliveries also go into a mailbox nobody has selected. Third session: a delivery within the second of the folder's mtime followed by idle time (pack opportunity) is an event; schedule scenarios CREATE | CREATE with epilogues (DELETE n1; RENAME n2 n1 / restart, delete and create again) decide that no (name, UIDVALIDITY) pair names two incarnations.",
@@ -121,19 +121,19 @@ EXTRA = {
  "C06": " Schedule part: DELETE/RENAME races and commands that do not touch messages (SUBSCRIBE, EXAMINE, CREATE child ...) sent while another session's FETCH is in progress. Third session: cells for commands sent while IDLE is active without DONE first, and for keywords the store cannot hold. Long part: four commands that make steady progress for more than 120 s (a peer taking 1.8 s per response on INBOX(70)) must be answered by themselves, not by the watchdog; before-login part: 17 commands through the front-end, each gets exactly one tagged reply.",
  "C08": " Every string over {1,7,2,:,*,','} up to length 5 (thorough 6) is put in nine message-set positions and decided by an independent recogniser of the RFC 3501 sequence-set grammar. Third session: differential acceptance -- every truncation / single edit of every quick-grammar sentence (2.2 million) is also read by an independent recogniser of the whole command grammar (vf/refmodel/cmdgrammar.py): in the language <=> accepted, with the same meaning. The run-loop part also sends rejected lines as the first line of a connection (incl. the POP3 front-end's marker word).",
  "C09": " Names built from the jail's own absolute path and names reaching a sibling whose name starts with the mail directory's name are added; every name runs through two command "
-        "orders (probing first / creating its inside reading first). Third session: existence oracle -- every escaping name is also run with a twin of equal length whose outside components do not exist; all responses must be identical.",
+        "orders (probing first / creating its inside reading first). Third session: existence oracle -- every escaping name is also run with a twin of equal length whose outside components do not exist; all responses must be identical. Fourth session: the sibling-directory names with a blank / TAB / VT before or after them (names a strip() after the containment check would turn into the sibling's path).",
  "C10": " Scenarios include slow readers (writer.drain() parked), a reader parked mid-FETCH as a start state, re-SELECT races, three sessions; client inputs postponed by one deviation "
         "stay postponed; every COPYUID destination UID must hold the source's content. Third session: COPY into the own mailbox vs STORE (thorough: MOVE variant, three-session opposite COPYs + STORE); slow readers at CAPABILITY / LSUB. IDLE / DONE are commands of the schedule engine; scenarios with an idling slow reader while sessions join / leave, STORE \\Deleted | EXPUNGE | NOOP, RENAME | SELECT | SELECT of an inactive mailbox, COPY | internal-date reads in the destination (sticky I/O operations).",
- "C11": " Quick tier: 17 histories incl. mailboxes emptied completely, plus every ordered pair of a 9-command alphabet after the client has learnt all UIDs. Third session: CREATE | CREATE under every schedule with <=1 (thorough 2) deviations, kill, restart, delete and create each name again: larger UIDVALIDITY. After every recovery the next APPEND to each mailbox must get a UID no client has seen; histories in which every message leaves at once and new ones reuse the numbers.",
+ "C11": " Quick tier: 17 histories incl. mailboxes emptied completely, plus every ordered pair of a 9-command alphabet after the client has learnt all UIDs. Third session: CREATE | CREATE under every schedule with <=1 (thorough 2) deviations, kill, restart, delete and create each name again: larger UIDVALIDITY. After every recovery the next APPEND to each mailbox must get a UID no client has seen; histories in which every message leaves at once and new ones reuse the numbers. Fourth session: every snapshot that passes is booted once more with an MH delivery made while the server is down (the delivered message may not inherit a revealed UID).",
  "C12": " A second, deeper BFS over an eight-event core alphabet (append, expunge, keywords, RENAME INBOX, DELETE/CREATE of a parent, SUBSCRIBE). Schedule part: SUBSCRIBE / APPEND while another session activates the mailbox (<=2 deviations), then orderly restart: LSUB, LIST and STATUS of every mailbox unchanged.",
  "C13": " Same-second deliveries (folder mtime unchanged) are composite events; a schedule part fires the delivery at every scheduling point inside STORE / FETCH / APPEND / COPY / "
         "EXPUNGE / NOOP and into the destination of a running COPY / MOVE. Third session: the agent files messages under further MH sequences (flagged, replied, Draft); a plan with the pack threshold lowered (deliveries around a pack). The MH-side oracle parses .mh_sequences itself (stdlib get_sequences() hides stale keys) and covers \\Noselect placeholders; a plan with DELETE-to-placeholder / CREATE / RENAME INBOX followed by deliveries that reuse the numbers.",
- "C14": " The corpus has Date headers that fall on another day in UTC, an empty header field, and empty search strings. Third session: a corpus message with a repeated header field.",
+ "C14": " The corpus has Date headers that fall on another day in UTC, an empty header field, and empty search strings. Third session: a corpus message with a repeated header field. Fourth session: a history part -- every sequence of 3 (thorough 4) mailbox-changing steps (expunge last / first, APPEND with two dates, flag changes); after every step ~19 programs over the FETCH-visible keys are judged on fresh facts; keywords spelled like MH sequence names.",
  "C16": " A history part evaluates the equations on every state of a depth-4/5 BFS (sizes asked, messages expunged, numbers reused, folder packed); partials are probed beyond the "
-        "item's end and on HEADER/TEXT/parts; a section menu is fetched for every shape. Third session: RENAME INBOX and header/ENVELOPE fetches in the history alphabet.",
+        "item's end and on HEADER/TEXT/parts; a section menu is fetched for every shape. Third session: RENAME INBOX and header/ENVELOPE fetches in the history alphabet. Fourth session: shapes with an empty multipart boundary and with no header fields at all (a text with an empty line of its own).",
  "C17": " A second, deeper BFS over an eight-event core alphabet; names behind the namespace prefix and names with all-digit components; LSUB attributes and the advertised "
         "LIST-EXTENDED forms (SUBSCRIBED selection, RETURN SUBSCRIBED/CHILDREN/STATUS) are compared too. Third session: a plan over look-alike names (a_b / axb / axb/k: SQL LIKE wild cards; letter case; w / w/x / w-old: names sorting below '/'). Mixed-case INBOX patterns with wild cards in the LIST / LSUB menu.",
- "C18": " 'Current password': the password file is rewritten (changed, disabled, removed, same hash) while the server runs; the old password must then be refused.",
+ "C18": " 'Current password': the password file is rewritten (changed, disabled, removed, same hash) while the server runs; the old password must then be refused. Fourth session: the throttle alphabet has another spelling of an account's name (LOGIN \"bob \"): it is no account, and may not become a second allowance of guesses.",
  "C19": " The menu has 15 items (incl. commands ending directly after a literal whose last octets look like a declaration). Third session: the client connection's stream buffer is lowered together with MAX_INPUT_SIZE (40 < 64, as 64 KiB < 10 MiB in production); 17 items incl. lines longer than the buffer. Both directions at once: a pipelined synchronising literal while a response is being relayed (open finding F112); stream buffer 12 vs limit 64 with a trickling segmentation.",
  "C20": " A second BFS starts with the POP3 session open over the DELE/RSET/QUIT bookkeeping; a schedule part races QUIT, RETR and TOP against IMAP EXPUNGE / UID FETCH / MOVE / APPEND "
         "(the POP3 handler's own attributes are part of the canonical state). Relay part: RETR replies with lines of 1 .. 300000 octets through the real POP3 front-end relay, three segmentations, delivered unmodified.",
